@@ -116,6 +116,7 @@ def main():
         shutil.rmtree(wt, ignore_errors=True)
 
 def finish(pid, n, meta, diff, demos, md):
+    file_n = str(meta.get("change", n))
     dst = f"/verif/seeded/{pid}-{file_n}"
     if meta.get("status") == "confirmed":
         os.makedirs(dst, exist_ok=True)
